@@ -417,11 +417,13 @@ Inductive hcall :=
 | CRoot (k : hkind) (obj : Z) (argsok : bool)                              (* open by path: no parent handle *)
 | CIssue (k : hkind) (parent : Z) (pk : hkind) (sub : Z) (argsok : bool)  (* open/attach/select/create under a parent handle *)
 | CUse (k : hkind) (id : Z)                                                (* inquiry on a handle: reports the object identity *)
-| CRelease (k : hkind) (id : Z).                                           (* the kind's release call *)
+| CRelease (k : hkind) (id : Z)                                            (* the kind's release call *)
+| CPair (k1 : hkind) (id1 : Z) (k2 : hkind) (id2 : Z) (argsok : bool).     (* a call that takes two ids (Vinsert) *)
 
 Inductive hans := AFail | AOk (v : Z).            (* library answer: v = issued id (issue) / identity (use) / 0 (release) *)
 Inductive verdict := VOk | VBad (code : Z).       (* code: 1 stale/foreign id accepted, 2 valid call refused, 3 wrong object,
-                                                     4 issued id aliases a live handle, 5 file closed under attached elements *)
+                                                     4 issued id aliases a live handle, 5 file closed under attached elements,
+                                                     6 ids of two different files accepted together *)
 
 Definition hget (k : hkind) (id : Z) (t : htable) : option handle :=
   match aget id t with
@@ -435,6 +437,16 @@ Definition has_blocking_children (id : Z) (t : htable) : bool :=
 (** handles whose parent is gone are gone too (release of an interface invalidates what was issued under it) *)
 Definition prune (t : htable) : htable :=
   filter (fun e => (hparent (snd e) =? -1) || match aget (hparent (snd e)) t with Some _ => true | None => false end) t.
+
+(** the root handle (file / SD file) a handle was issued under, with its object identity *)
+Fixpoint root_of (fuel : nat) (id : Z) (t : htable) : option (Z * Z) :=
+  match fuel with
+  | O => None
+  | S f => match aget id t with
+           | None => None
+           | Some h => if hparent h =? -1 then Some (id, hobj h) else root_of f (hparent h) t
+           end
+  end.
 
 Definition issue (k : hkind) (id parent obj : Z) (t : htable) : verdict * htable :=
   match aget id t with
@@ -475,6 +487,18 @@ Definition h_step (c : hcall) (a : hans) (t : htable) : verdict * htable :=
           if has_blocking_children id t then (VBad 5, t)
           else if 1 <? hcnt h then (VOk, aset id (mkH (hk h) (hobj h) (hparent h) (hcnt h - 1)) t)
           else (VOk, prune (prune (prune (adel id t))))
+      end
+  | CPair k1 id1 k2 id2 argsok =>
+      match hget k1 id1 t, hget k2 id2 t with
+      | Some _, Some _ =>
+          match root_of 5 id1 t, root_of 5 id2 t with
+          | Some (r1, o1), Some (r2, o2) =>
+              if negb (o1 =? o2) then (match a with AOk _ => VBad 6 | AFail => VOk end, t)     (* two different files *)
+              else if (r1 =? r2) && argsok then (match a with AOk _ => VOk | AFail => VBad 2 end, t)
+              else (VOk, t)
+          | _, _ => (VOk, t)
+          end
+      | _, _ => (match a with AOk _ => VBad 1 | AFail => VOk end, t)
       end
   end.
 
